@@ -190,13 +190,20 @@ class Transaction:
         return None
 
     @staticmethod
-    def _schema_signature(schema: Schema) -> Set[Any]:
-        """Comparable signature of a schema's fields (name, type, required)."""
-        sig = set()
+    def _schema_signature(schema: Schema) -> List[Any]:
+        """Comparable signature of a schema: its fields IN ORDER, with their ids.
+
+        Both matter. Column order decides the layout of the parquet file that is
+        written (a reordered schema produced files pa.concat_tables refuses, so
+        every later scan of the table failed), and field ids are the keys the
+        column bounds are stored under (re-numbered ids made file pruning skip
+        files that match).
+        """
+        sig = []
         for f in schema.fields:
             f_type = f.get("type")
             type_key = json.dumps(f_type, sort_keys=True) if isinstance(f_type, (dict, list)) else f_type
-            sig.add((f.get("name"), type_key, bool(f.get("required", False))))
+            sig.append((f.get("id"), f.get("name"), type_key, bool(f.get("required", False))))
         return sig
 
     def _validate_schema_against_table(self, schema: Schema) -> None:
